@@ -187,6 +187,16 @@ func genPipe(r *lib.Rng, format string) Case {
 	return c
 }
 
+// through DataPublisher.PublishData (publish_data.go)
+func genPub(r *lib.Rng, format string) Case {
+	c := genPipe(r, map[string]string{"pub22": "ljh22", "pub3": "ljh3", "puboff": "off"}[format])
+	c.Kind, c.Fmt = "pub", format
+	if r.Chance(1, 2) {
+		c.Ops = append(c.Ops, GOp{Op: "P"}, GOp{Op: "B", N: r.Range(1, 20)})
+	}
+	return c
+}
+
 func w(n, s int) GOp { return GOp{Op: "W", N: n, S: s} }
 
 func corpus() []Case {
@@ -218,6 +228,10 @@ func pipeCorpus() []Case {
 		{Kind: "pipe", Fmt: "ljh22", N: 250, Ops: []GOp{op("S"), {Op: "B", N: 1400}}},
 		{Kind: "pipe", Fmt: "ljh3", N: 250, Ops: []GOp{op("S"), {Op: "B", N: 1400}}},
 		{Kind: "pipe", Fmt: "off", N: 60, Ops: []GOp{op("S"), {Op: "B", N: 1600}}},
+		// ... and through DataPublisher.PublishData
+		{Kind: "pub", Fmt: "pub22", N: 250, Ops: []GOp{op("S"), {Op: "B", N: 1400}}},
+		{Kind: "pub", Fmt: "pub3", N: 250, Ops: []GOp{op("S"), {Op: "B", N: 1400}, op("F"), {Op: "B", N: 7}}},
+		{Kind: "pub", Fmt: "puboff", N: 60, Ops: []GOp{op("S"), {Op: "B", N: 1600}, op("P"), {Op: "B", N: 5}}},
 	}
 }
 
@@ -247,8 +261,10 @@ func gen(seed uint64, tier string) []interface{} {
 		if i%every == every/2 && np < npipe {
 			if np < len(pipeCorpus()) {
 				add(pipeCorpus()[np])
-			} else {
+			} else if (np-len(pipeCorpus()))%2 == 0 || tier != "thorough" {
 				add(genPipe(r.Fork(), []string{"ljh22", "ljh3", "off"}[np%3]))
+			} else {
+				add(genPub(r.Fork(), []string{"pub22", "pub3", "puboff"}[np%3]))
 			}
 			np++
 		}
@@ -269,6 +285,9 @@ func main() {
 			}
 			if c.Kind == "pipe" {
 				return runPipe(c), nil
+			}
+			if c.Kind == "pub" {
+				return runPub(c), nil
 			}
 			if c.Cap < 1 {
 				c.Cap = 1
